@@ -1,4 +1,5 @@
 """Correspondence of the pure shell functions (yalafi/shell/*) with the Lean model."""
+from corr import pmap_retry
 import sys, io, re, types
 import impl, proto, model
 
@@ -59,7 +60,7 @@ def map_match(ctx, n):
         cases.append((cm, latex, off, ln))
     if not ctx.model_ok:
         return
-    res = ctx.pmap(impl_map, cases)
+    res = pmap_retry(ctx, impl_map, cases)
     ans = model.run_batch([('MAP', 'm%d' % i, [enc_ints(c[0]), proto.enc_str(c[1]), str(c[2])] + enc_j(c[3])) for i, c in enumerate(cases)])
     for i, (c, r) in enumerate(zip(cases, res)):
         a = ans['m%d' % i]
@@ -133,7 +134,7 @@ def assemble_sort(ctx, n):
         cases.append(parts)
     if not ctx.model_ok:
         return
-    res = ctx.pmap(impl_asm, cases)
+    res = pmap_retry(ctx, impl_asm, cases)
     reqs = []
     for i, parts in enumerate(cases):
         f = [str(len(parts))]
